@@ -297,6 +297,11 @@ def run(ctx):
     # on the position of the maximum and exceeds CPython's recursion limit near length 1000 (observation)
     many = [Perm(list(range(1, n)) + [0]) for n in (1100, 1300)] + [Perm([n - 1] + list(range(n - 1))) for n in (1101,)]
     ctx.run("C12.count.count_pop_stack_sorts", many, chunk=1, rule=None)
+    # the recursive operators on inputs of length 1200 (known finding C12-recursion-*: they exceed CPython's recursion limit)
+    deep = [Perm(range(1200)), Perm(list(range(1, 1200)) + [0])]
+    for name in ("stack_sort", "bubble_sort", "quick_sort", "pop_stack_sort"):
+        ctx.run(f"C12.op.{name}", deep, chunk=1, rule=None)
+    ctx.rules.append("C12.op.* additionally on the identity and a rotation of length 1200")
     ctx.rules.append("C12.count.count_pop_stack_sorts additionally on three permutations of length 1100-1300 that need > 1000 passes")
     ctx.rules.append(f"C12.op.* / C12.sortable.* / C12.count.* additionally on {len(blocky)} seeded block-structured "
                      "permutations of length 9-20 (direct/skew sums of blocks of length <= 6)")
@@ -356,3 +361,13 @@ def run(ctx):
     from props import dlayer
 
     dlayer.run(ctx, "C12")
+
+
+def kf_recursion(failure):
+    """The failing input is a permutation of length >= 900 and the failure is CPython's RecursionError: the operator
+    is written as a recursion whose depth grows with the length of the input."""
+    from vlib import codec
+
+    item = codec.dec(failure["input"])
+    text = str(failure.get("actual", "")) + str(failure.get("note", ""))
+    return len(item) >= 900 and "RecursionError" in text
